@@ -103,7 +103,7 @@ def oracle(ctx):
     def both(ts):
         files, st, odd = ts
         if odd is None:
-            return e2e.run_pair(files, stale=st)
+            return e2e.run_pair(files, stale=st, unpriv_default_logging=(hash(str(sorted(files))) % 4 == 0))
         links = {'dangling': {'odd': 'nowhere/at/all'}, 'dangling-first': {'odd': 'nowhere'}, 'loop': {'odd': 'odd2', 'odd2': 'odd'}}.get(odd)
         if odd == 'file':
             files = dict(files, odd='not a directory')
